@@ -9,7 +9,9 @@ Requests (one per line):
   <op> ARGS [i,j,k]      with op in coords|base|top        ARGS = unitSteps bounds limits offset geom sym
   axialonly ARGS         indexbounds ARGS       reduce ARGS       rebuild ARGS
   hexpitch s3 newPitch ARGS [i,j,k]             cartpitch xw yw ARGS [i,j,k]
-  global LOC LOC ...     complete LOC (LOC | _)
+  getlabel [i,j(,k)]     labelidx L<label>        (Grid.getLabel / locatorLabelToIndices; labels over digits and '-')
+  global LOC LOC ...     complete LOC (LOC | _)     completechain LOC LOC ...    addingvalid LOC LOC
+  globalT LOCT LOCT ...  LOCT = LOC | T tau cos sin ARGS [i,j,k]   (index locator of a ThetaRZGrid)
   LOC = I ARGS [i,j,k] | ID [i,j,k] | C [x,y,z] | CG ARGS [x,y,z]
 unitSteps = [row,row,row], row = [a,b,c] | scalar;  bounds = [_|[..],_|[..],_|[..]];
 limits = [[a,b],[c,d],[e,f]];  offset = _ | [x,y,z];  geom, sym = 's' ++ text with '+' for ' '.
@@ -81,6 +83,25 @@ def parseLoc? : List String → Option (Loc × List String)
     | _ => none
   | _ => none
 
+/-- LOC or `T tau cs sn ARGS [i,j,k]` (index locator in a ThetaRZGrid) -/
+def parseLocT? : List String → Option (LocT × List String)
+  | "T" :: tau :: cs :: sn :: u :: b :: l :: o :: g :: s :: idx :: rest => do
+    let tau ← parseRat? tau
+    let cs ← parseRat? cs
+    let sn ← parseRat? sn
+    let a ← parseArgs? u b l o g s
+    let gr ← build a
+    match ← parseIntList? idx with
+    | [i, j, k] => some (.trz tau cs sn gr i j k, rest)
+    | _ => none
+  | ts => (parseLoc? ts).map (fun (p : Loc × List String) => (LocT.plain p.1, p.2))
+
+partial def parseLocsT? (ts : List String) : Option (List LocT) :=
+  if ts.isEmpty then some [] else do
+    let (l, rest) ← parseLocT? ts
+    let more ← parseLocsT? rest
+    some (l :: more)
+
 partial def parseLocs? (ts : List String) : Option (List Loc) :=
   if ts.isEmpty then some [] else do
     let (l, rest) ← parseLoc? ts
@@ -104,7 +125,27 @@ def parseMut? (t : String) : Option Mut :=
   | ["R"] => some .restore
   | _ => none
 
+def symOfChar (c : Char) : Sym :=
+  if c = '-' then .dash else if c.isDigit then .dig (c.toNat - 48) else .other
+
+def charOfSym : Sym → Char
+  | .dash => '-'
+  | .dig d => Char.ofNat (48 + d)
+  | .other => '?'
+
+def showOptInt : Option Int → String
+  | none => "None"
+  | some v => toString v
+
 def answer : List String → String
+  | ["getlabel", idx] => match parseIntList? idx with
+      | some ix => showOpt (fun l => "L" ++ String.ofList (l.map charOfSym)) (getLabel ix)
+      | none => "bad-op"
+  | ["labelidx", lab] =>
+      -- the label is sent with a leading 'L' so that the empty label is a token
+      if lab.startsWith "L" then
+        showOpt (showList showOptInt) (labelToIndices ((lab.toList.drop 1).map symOfChar))
+      else "bad-op"
   | ["cartringpos", t, i, j] => match parseBool? t, parseInt? i, parseInt? j with
       | some t, some i, some j => showPair (cartRingPos t i j)
       | _, _, _ => "bad-op"
@@ -191,10 +232,23 @@ def answer : List String → String
   | "global" :: rest => match parseLocs? rest with
       | some locs => if locs.isEmpty then "bad-op" else showOpt showRats (globalCoords locs)
       | none => "bad-op"
+  | "globalT" :: rest => match parseLocsT? rest with
+      | some locs => if locs.isEmpty then "bad-op" else showOpt showRats (globalCoordsT locs)
+      | none => "bad-op"
+  | "completechain" :: rest => match parseLocs? rest with
+      | some locs => if locs.isEmpty then "bad-op"
+          else if (match locs with | l :: rest => completeIndicesRaises l rest.head? | [] => false) then "reject"
+          else showRats (completeIndicesChain locs)
+      | none => "bad-op"
+  | "addingvalid" :: rest => match parseLocs? rest with
+      | some [a, b] => (match a.grid, b.grid with
+          | some ga, some gb => showBool (addingIsValid ga gb)
+          | _, _ => "bad-op")
+      | _ => "bad-op"
   | "complete" :: rest => match parseLoc? rest with
       | some (self, ["_"]) => showRats (completeIndices self none)
       | some (self, more) => (match parseLoc? more with
-          | some (p, []) => showRats (completeIndices self (some p))
+          | some (p, []) => if completeIndicesRaises self (some p) then "reject" else showRats (completeIndices self (some p))
           | _ => "bad-op")
       | none => "bad-op"
   | _ => "bad-op"
